@@ -22,10 +22,11 @@ Step ==
     /\ UNCHANGED tid
     /\ LET tr  == Traces[tid]
            res == SerRun(tr.toks, tr.o, KnownDefects)
-       IN IF res.out # tr.out THEN verdict' = "reject:output" /\ l' = FirstDiff(res.out, tr.out, 1) /\ info' = NoInfo
+       IN IF OutOf(res) # tr.out THEN verdict' = "reject:output" /\ l' = FirstDiff(OutOf(res), tr.out, 1) /\ info' = NoInfo
           ELSE IF res.errs # tr.errs THEN verdict' = "reject:errors" /\ l' = Len(res.errs) /\ info' = NoInfo
-          ELSE IF res.ferr # tr.sn \/ tr.se # (IF res.errs = <<>> THEN <<>> ELSE <<res.errs[1]>>)
+          ELSE IF CutOf(res) # tr.sn \/ tr.se # (IF res.errs = <<>> THEN <<>> ELSE <<res.errs[1]>>)
                THEN verdict' = "reject:strict" /\ l' = (IF res.ferr < 0 THEN 0 ELSE res.ferr) /\ info' = NoInfo
+          ELSE IF res.crash THEN verdict' = "accept" /\ l' = Len(tr.toks) /\ info' = [c |-> "exception-raised", f |-> {}]
           ELSE IF res.errs # <<>> THEN verdict' = "accept" /\ l' = Len(tr.toks) /\ info' = [c |-> "error-reported", f |-> {}]
           ELSE LET f == Judge(tr.toks, tr.o, tr.out) IN
                IF f.j = 0 THEN verdict' = "accept" /\ l' = Len(tr.toks) /\ info' = [c |-> "faithful", f |-> {}]
